@@ -1,6 +1,9 @@
 from mpilot.commands import Command
 
 
-class Qux(Command):
+class Bar(Command):
+    # shares its CLASS name with vlib_a.cmds.Bar; its command name is Qux, so the two never collide
+    name = "Qux"
+
     def execute(self, **kw):
         return "vlib_a.sub.Qux"
